@@ -1278,6 +1278,22 @@ def format_rule(res):
                         key = f"{fn.get('n')}:{cir.text(m_)[:40]}"
                         if m_.get("k") == "StringLiteral" or cir.text(m_) in ("NULL", "0", "nullptr"):
                             res.ok("R-FORMAT", key, None)
+                            # argument agreement: the constructor expands the format with (str, pos) in that order; a `%s`
+                            # whose string argument is left at its default (NULL) is undefined behaviour in sprintf
+                            if m_.get("k") == "StringLiteral":
+                                fmt_ = str(m_.get("v") or cir.text(m_))
+                                convs = re.findall(r"%[-+ #0]*\d*(?:\.\d+)?(?:hh|h|ll|l|z|j|t)?([a-zA-Z%])", fmt_)
+                                convs = [c_ for c_ in convs if c_ != "%"]
+                                third = cir.strip(a[2]) if len(a) > 2 else None
+                                has_str = third is not None and third.get("k") != "CXXDefaultArgExpr" and \
+                                    cir.text(third) not in ("NULL", "0", "nullptr")
+                                if convs[:1] == ["s"] and not has_str:
+                                    res.bad("R-FORMAT", key + ":args", tu, c.get("line"),
+                                            f"{fn.get('n')}: the format {cir.text(m_)[:60]} has a %s conversion but no string argument is "
+                                            f"passed (the default is NULL): sprintf(\"%s\", NULL) is undefined behaviour and the message "
+                                            f"loses the offending text")
+                                elif convs[:1] == ["s"]:
+                                    res.ok("R-FORMAT", key + ":args", None)
                         else:
                             res.bad("R-FORMAT", key, tu, c.get("line"),
                                     f"{fn.get('n')} passes the run-time string `{cir.text(m_)[:70]}` as mjXError's printf format: any `%` in "
